@@ -113,8 +113,8 @@ def opkey(l):
 def tie(ctx):
     rng = random.Random(ctx.seed * 9176 + 1502)
     schemas = K.rotate(G.SCHEMAS, ctx.seed, 7 if ctx.tier == "thorough" else 3)
-    per = 24 if ctx.tier == "thorough" else 6
-    nadv = 60 if ctx.tier == "thorough" else 36
+    per = 60 if ctx.tier == "thorough" else 6
+    nadv = 80 if ctx.tier == "thorough" else 36
     scripts = []
     hid = 0
     for s in schemas:
